@@ -162,24 +162,35 @@ def run(ctx):
                        "payload-length class, byte-sum class).")
     check_cases(ctx, gen_cases(ctx))
     check_unpack(ctx)
-    try:
-        from units import session
-    except ImportError:
-        session = None
-    if session is not None and hasattr(session, "c02_streams"):
-        session.c02_streams(ctx)
+    # API level: the outbound byte stream of whole sessions (every operation kind, short writes included) through the Lean parser
+    import oracles
+    import scen
+    from units import sesscheck
+    n = int((40 if ctx.tier == "quick" else 800) * ctx.budget)
+    scns = [ctx.rng.choice([scen.gen_mixed, scen.gen_push, scen.gen_handshake, scen.gen_short_writes, scen.gen_fail])(ctx.rng) for _ in range(n)]
+    sesscheck.check_scenarios(ctx, scns, (oracles.o_c02,), "api-streams")
 
 
 def search(ctx, disagreements, proofs):
     """After a broken proof/correspondence: more cases, oracle only."""
     before = len(ctx.report.prop_failures)
     check_cases(ctx, gen_cases(ctx))
+    if len(ctx.report.prop_failures) == before:
+        import oracles
+        import scen
+        from units import sesscheck
+        scns = [ctx.rng.choice([scen.gen_mixed, scen.gen_push, scen.gen_handshake, scen.gen_short_writes])(ctx.rng) for _ in range(int(60 * ctx.budget))]
+        sesscheck.check_scenarios(ctx, scns, (oracles.o_c02,), "api-streams")
     fails = ctx.report.prop_failures[before:]
     return fails[0] if fails else None
 
 
 def shrink(ctx, failure):
     case = failure.get("case")
+    if isinstance(case, dict):
+        import oracles
+        from units import sesscheck
+        return sesscheck.shrink(ctx, failure, (oracles.o_c02,))
     if not case or case[0] != "pack":
         return failure
     from common import unhx
@@ -210,6 +221,10 @@ def replay(ctx, payload):
     from common import unhx
     fl = payload.get("failure") or {}
     case = fl.get("case")
+    if isinstance(case, dict):
+        import oracles
+        from units import sesscheck
+        return sesscheck.replay(ctx, payload, (oracles.o_c02,))
     if not case or case[0] != "pack":
         print("nothing to replay: %s" % payload.get("kind"))
         return True
